@@ -20,10 +20,30 @@
 #include <atomic>
 #include <thread>
 
+#include <chrono>
+#include <cstring>
+
+#include "corecel/sys/VerifHooks.hh"
 #include "problems/loop_zoo.hh"
 
 using namespace celeritas;
 using namespace vf;
+
+// Make the two constructions overlap even on a busy machine: both threads wait for each other
+// right before their k-th begin-run action (CELERITAS_VERIF hook in ActionSequence::begin_run).
+static std::atomic<unsigned> g_arrived[4096];
+static thread_local unsigned tl_index = 0;
+static void rendezvous(char const* tag)
+{
+    if (std::strcmp(tag, "begin-run-action") != 0)
+        return;
+    unsigned k = tl_index++;
+    g_arrived[k].fetch_add(1);
+    auto t0 = std::chrono::steady_clock::now();
+    while (g_arrived[k].load() < 2
+           && std::chrono::steady_clock::now() - t0 < std::chrono::milliseconds(500))
+        std::this_thread::yield();
+}
 
 int main()
 {
@@ -35,12 +55,13 @@ int main()
     cfg.status_checker = true;  // the debug status checker is the only thing needed
     auto P = make_loop_problem(cfg);
     P->recorder->split_streams = true;
+    celeritas::verif::g_yield = &rendezvous;
     std::atomic<int> ready{0};
     auto body = [&](unsigned stream) {
         ++ready;
         while (ready.load() < 2)
             std::this_thread::yield();
-        for (int rep = 0; rep < 20; ++rep)
+        for (int rep = 0; rep < 5; ++rep)
         {
             // the way celer-sim's Runner::get_transporter builds one transporter per stream,
             // lazily, from the thread that uses it
